@@ -29,12 +29,18 @@ RULE = ("one evaluation = one (compiler, skeleton, identifier pool, initial Bool
 
 POOLS = [
     None,
-    dict(o1="a_b", o2="b", a="move", a2="move_a", x="x"),                 # move(a_b) vs move_a(b)
-    dict(o1="o", o2="o_0", b="b", p="not_b", n="n", u="is_value_defined_u", x="x"),  # names the compilers generate
-    dict(a="A", a2="a", o1="O1", o2="o1", b="B", p="b", x="X"),          # case variants
-    dict(o1="x", o2="y", a="a", a2="a_x", p="p_x", b="p", x="p_x_"),     # parameter / object / fluent prefixes
+    dict(o1="a_b", o2="c", a="move", a2="move_a", b="flag", x="x"),         # move(a_b) ... move_a(b-like): separator clashes
+    dict(o1="b_c", o2="c", a="move_a", a2="move_a_b", b="flag", x="x"),     # move_a(b_c) vs move_a_b(c)
+    dict(o1="o", o2="o_0", b="b", p="not_b", n="n", u="is_value_defined_u", w="w", x="x"),  # names the compilers generate
+    dict(a="A", a2="a", o1="O1", o2="o1", b="B", p="b", x="X"),             # case variants
+    dict(o1="x", o2="y", a="a", a2="a_x", p="p_x", b="p", x="p_x_"),        # parameter / object / fluent prefixes
     dict(b="dnf_fake_goal", p="cerm", a="cerm_0", a2="a_0_1", o1="o1_", o2="o1__", x="x"),
 ]
+_DEFAULT_NAMES = dict(T="T", S="S", o1="o1", o2="o2", b="b", p="p", w="w", u="u", n="n", a="a", a2="a2")
+for _p in POOLS:
+    if _p:
+        _all = dict(_DEFAULT_NAMES, **{k: v for k, v in _p.items() if k != "x"})
+        assert len(set(_all.values())) == len(_all), _p
 
 
 def _names(prob):
